@@ -33,7 +33,7 @@ Definition ex_trs : list (table * list cell) := all_trs (d_tables ex_doc).
 (* the data row written as:  <tab> t <2 blanks> "5" <blank> "a b" <blank> # note   (quoted int, lower-case name),
    one comment line and one blank line inserted before it *)
 Definition ex_row : bytes :=
-  [TAB] ++ lrow_core (bs "t"%string) [([SP; SP], LSc (SInt 5) true); ([SP], LSc (STok (bs "a b"%string)) true)]
+  [TAB] ++ lrow_core (bs "t"%string) [([SP; SP], LSc (SInt 5) FQuoted); ([SP], LSc (STok (bs "a b"%string)) (FBraced [SP]))]
   ++ [SP] ++ tail_text (Some (bs " note"%string)).
 Definition ex_items : list item :=
   firstn 6 (items_gen ex_doc ex_tws ex_trs) ++ [ILine (bs " # inserted"%string); ILine [SP; TAB]; ILine ex_row].
@@ -54,7 +54,7 @@ Proof.
     (firstn 6 (items_gen ex_doc ex_tws ex_trs) ++
      [ILine (render_row_line (upper (bs "t"%string))
         (map (fun gc : bytes * lcell => cell_of (snd gc))
-           [([SP; SP], LSc (SInt 5) true); ([SP], LSc (STok (bs "a b"%string)) true)]))]).
+           [([SP; SP], LSc (SInt 5) FQuoted); ([SP], LSc (STok (bs "a b"%string)) (FBraced [SP]))]))]).
   unfold ex_items. vm_compute firstn.
   repeat apply id_same.
   apply id_skip; [right; exists [SP], (bs " inserted"%string); repeat split; reflexivity|].
